@@ -96,12 +96,15 @@ class CacheDriver:
             return args[0] in r
         if op == 'len':
             return len(r)
-        if op == 'iter':
-            return list(r)
-        if op == 'reversed':
-            return list(reversed(r))
-        if op == 'iterkeys':
-            return list(r.iterkeys(*args, **kw))
+        if op in ('iter', 'reversed', 'iterkeys'):
+            import itertools
+            cap = 2 * len(self.model.items) + 500      # an iteration that does not terminate must not hang the check
+            it = iter(r) if op == 'iter' else reversed(r) if op == 'reversed' else r.iterkeys(*args, **kw)
+            out = list(itertools.islice(it, cap))
+            if len(out) >= cap:
+                raise Mismatch('%s yields more than %d keys for %d stored items (does not terminate?)' % (
+                    op, cap, len(self.model.items)), self.witness())
+            return out
         if op == 'expire' and self.kind == 'fanout':
             return r.expire()
         return getattr(r, op)(*args, **kw)
@@ -133,6 +136,8 @@ class CacheDriver:
         self.clock.begin()
         try:
             got = ('ok', normalize_out(self._real_call(op, args, kw)))
+        except Mismatch:
+            raise
         except Exception as exc:       # noqa: BLE001 - outcome is data here
             got = ('raise', type(exc))
             self.last_exc = exc
